@@ -155,6 +155,21 @@ fn wide_programs(n: usize) -> Vec<(&'static str, String, f64)> {
     v
 }
 
+// many small functions: no single chunk is large, but the interpreter as a whole sees `outer * inner` distinct
+// identifiers and strings (crossing 2^16 interpreter-wide); a binding declared afterwards must still resolve
+fn many_small_functions(outer: usize, inner: usize) -> (String, f64) {
+    let mut src = String::from("let keep = 7; let acc = 0;\n");
+    for o in 0..outer {
+        src.push_str(&format!("function o{}() {{ ", o));
+        for i in 0..inner {
+            src.push_str(&format!("function i{}_{}() {{ return 'q{}_{}'.length; }} ", o, i, o, i));
+        }
+        src.push_str(&format!("return i{}_0(); }}\nacc += o{}() > 0 ? 1 : 0;\n", o, o));
+    }
+    src.push_str("let lateTotal = 41; function useLate() { return lateTotal + 1; }\nkeep * 100000000 + acc * 1000 + useLate()");
+    (src, 7.0 * 1e8 + outer as f64 * 1000.0 + 42.0)
+}
+
 #[test]
 fn verif_side_c10() {
     let seed: u64 = std::env::var("VERIF_SEED").ok().and_then(|s| s.parse().ok()).unwrap_or(0);
@@ -205,6 +220,17 @@ fn verif_side_c10() {
                 };
                 println!("VERIF-SIDE-FAIL obligation=side/C10/{} sig={} n={} got={} want={} (a sequence of small statements must be accepted)", family, sig, n, &g[..g.len().min(300)], want);
             }
+        }
+    }
+    for &(outer, inner) in &[(10usize, 10usize), (250, 270), (300, 250)] {
+        cases += 1;
+        let (src, want) = many_small_functions(outer, inner);
+        let got = run(&src);
+        let ok = matches!(&got, Outcome::Num(v) if *v == want);
+        if !ok && fails < 40 {
+            fails += 1;
+            let g = format!("{:?}", got);
+            println!("VERIF-SIDE-FAIL obligation=side/C10/many_small_functions_sequence sig=distinct-strings-across-chunks n={} got={} want={} (no single construct is large)", outer * inner, &g[..g.len().min(300)], want);
         }
     }
     let _ = std::panic::take_hook();
